@@ -1,6 +1,7 @@
 /- line-protocol driver for the C10 model (Mathlib-free) -/
 import Ipv8.Base.Proto
 import Ipv8.C10.Model
+import Ipv8.C10.AsyncTask
 open Ipv8 Ipv8.C10
 
 def optNat? (s : String) : Option (Option Nat) :=
@@ -71,9 +72,31 @@ def digest (s : St) : String :=
 
 /-- a line starting with the token `~` is answered without the digest (the harness observed that event too late
     to take a consistent snapshot, e.g. the end of `_on_timeout` noticed from inside the next on_timeout) -/
+def phaseName : AsyncTask.Phase → String
+  | .created => "created" | .sleeping => "sleeping" | .woken => "woken" | .running => "running"
+  | .finished => "finished" | .cancelled => "cancelled"
+
+/-- `atask <delayed> <phase>`: bring one timeout Task of AsyncTask.lean into the given phase, call cancel(), let the
+    loop run it to the end; reply = how often the body was entered and how the Task ended (compared with the real
+    asyncio.Task the harness cancelled in that phase) -/
+def atask (delayed : Bool) (phase : String) (raises : Bool := false) : Option String :=
+  let pre : Option (List AsyncTask.Ev) :=
+    match phase, delayed with
+    | "created", _ => some []
+    | "sleeping", true => some [.step]
+    | "woken", true => some [.step, .timer]
+    | "running", true => some [.step, .timer, .step]
+    | "running", false => some [.step]
+    | _, _ => none
+  pre.map fun p =>
+    let t := AsyncTask.run { delayed := delayed } (p ++ [.cancel, .step, .step, if raises then .bodyRaise else .bodyEnd, .step])
+    s!"body={t.bodyRuns} end={phaseName t.phase}"
+
 def stepLine (s : St) (toks : List String) : St × String :=
   match toks with
   | ["reset"] => (init, "reset")
+  | ["atask", d, ph] => (s, (atask (d != "0") ph).getD "bad-op")
+  | ["atask", d, ph, "raise"] => (s, (atask (d != "0") ph true).getD "bad-op")
   | "~" :: rest =>
     match parseEv rest with
     | none => (s, "bad-op")
